@@ -104,6 +104,9 @@ def getattr_(ex, st, base, attr, node=None):
         if k == "ext":
             yield st, Const("ext", f"{base.val}.{attr}")
             return
+        if k == "hashobj" and attr == "hexdigest":
+            yield st, Const("hexdigest", base.val)
+            return
         if k in ("dict", "dictconst") and attr in ("get", "items", "keys", "values"):
             yield st, Const("constdictmethod", (base, attr))
             return
@@ -148,6 +151,32 @@ def getitem(ex, st, base, idx, node=None):
         for st1, r in ex.need(st, S.dict_has(base.t, k), "KeyError", "getitem"):
             yield st1, (r if r is not None else ex.narrow(st1, V("py", S.dict_get(base.t, k))))
         return
+    if ty in ("list", "tuple") and idx.ty == "bv64":
+        # a constant table indexed by a bit-vector expression: an ite chain over the index
+        elems = arith._concrete_elems(base.t)
+        vals = None
+        if elems is not None and 0 < len(elems) <= 256:
+            vals = []
+            for e in elems:
+                es = z3.simplify(e)
+                if z3.is_app(es) and es.decl().eq(Py.int) and z3.is_int_value(es.arg(0)):
+                    vals.append(es.arg(0).as_long())
+                else:
+                    vals = None
+                    break
+        if vals is None:
+            raise _U("bv64 index into a non-constant table")
+        n = len(vals)
+        for st1, r in ex.need(st, z3.ULT(idx.t, z3.BitVecVal(n, 64)), "IndexError", "getitem"):
+            if r is not None:
+                yield st1, r
+                continue
+            out = z3.BitVecVal(vals[n - 1] % (1 << 64), 64)
+            for k in range(n - 2, -1, -1):
+                out = z3.If(idx.t == z3.BitVecVal(k, 64), z3.BitVecVal(vals[k] % (1 << 64), 64), out)
+            ex.eng.obligation(ex, st1, "table.entries_fit_64_bits", z3.BoolVal(all(0 <= v < (1 << 64) for v in vals)), "model", node)
+            yield st1, V("bv64", out)
+        return
     if ty in ("list", "tuple", "bytes", "str"):
         if idx.ty == "py":
             for st1, r in ex.need(st, Py.is_int(idx.t), "TypeError", "index-type"):
@@ -174,6 +203,8 @@ def getitem(ex, st, base, idx, node=None):
             if ty in ("list", "tuple"):
                 yield st1, ex.narrow(st1, V("py", base.t[j]))
             elif ty == "bytes":
+                if not ex.total:
+                    st1.assume(z3.And(base.t[j] >= 0, base.t[j] <= 255))    # type invariant of bytes
                 yield st1, V("int", base.t[j])
             else:
                 yield st1, V("str", z3.SubString(base.t, j, 1))
